@@ -392,6 +392,12 @@ func (c *clientHello) parseExtensions() error {
 					return fmt.Errorf("%w: ech ext payload", ErrDecodeError)
 				}
 				c.echExt.Payload = slices.Clone(v)
+				// Nothing follows the payload. (The AAD is the outer hello
+				// with the payload zeroed; octets behind the payload would
+				// shift what marshalAAD zeroes.)
+				if !data.Empty() {
+					return fmt.Errorf("%w: ech ext trailing data", ErrDecodeError)
+				}
 			}
 		}
 	}
